@@ -400,7 +400,7 @@ Fixpoint yaml_tree (M : methods) (sh : shape) (s : string) : tree :=
   end.
 
 (* confmap encoder.encode: Interface/Ptr -> Elem; Map; Slice; Struct; everything else (strings,
-   ARRAYS, ...) goes to the hook chain, whose TextMarshalerHookFunc replaces a TextMarshaler by
+   ...) goes to the hook chain, whose TextMarshalerHookFunc replaces a TextMarshaler by
    its text and leaves any other value as it is *)
 Inductive cres := COk (t : tree) | CErr (e : string).
 
@@ -419,7 +419,8 @@ Fixpoint conf_tree (M : methods) (sh : shape) (s : string) : cres :=
   | SField false _ => COk (TMap [])
   | SSlice i => cmap (fun t => TList [t; t])
                      (fun e => "error encoding element in slice at index 0: " ++ e) (conf_tree M i s)
-  | SArray _ => COk (TRaw (tyname sh))
+  | SArray i => cmap (fun t => TList [t])     (* encodeArray: the hook leaves [n]String alone, then element by element *)
+                     (fun e => "error encoding element in array at index 0: " ++ e) (conf_tree M i s)
   | SMapVal i => cmap (fun t => TMap [("k", t)])
                       (fun e => "error encoding map value for key " ++ go_quote "k" ++ ": " ++ e) (conf_tree M i s)
   | SMarsh i =>
@@ -548,11 +549,12 @@ Fixpoint fmt_reaches (sh : shape) (depth : nat) : bool :=
   | SField _ i | SSlice i | SArray i | SMapVal i | SMarsh i => fmt_reaches i (S depth)
   end.
 
-Fixpoint no_array (sh : shape) : bool :=
+(* a map with two opaque keys makes the config-map encoder fail (they collide on the marker) *)
+Fixpoint no_key2 (sh : shape) : bool :=
   match sh with
   | SBare | SMapKey => true
-  | SArray _ | SMapKey2 => false      (* (a two-key map makes the config-map encoder fail) *)
-  | SField _ i | SPtr i | SSlice i | SMapVal i | SIface i | SMarsh i => no_array i
+  | SMapKey2 => false
+  | SField _ i | SPtr i | SSlice i | SArray i | SMapVal i | SIface i | SMarsh i => no_key2 i
   end.
 
 Definition encodes_to_map (sh : shape) : bool :=
@@ -567,7 +569,7 @@ Definition shows (p : path) (sh : shape) : bool :=
   | PSprint | PSprintln => no_unexported sh && fmt_reaches (dyn sh) 0
   | PJson | PZapReflect => no_unexported sh && no_mapkey sh
   | PYaml => no_unexported sh
-  | PConfmap => no_unexported sh && no_array sh && encodes_to_map sh
+  | PConfmap => no_unexported sh && no_key2 sh && encodes_to_map sh
   | PZapStringer | PString | PGoString | PMarshalText | PMarshalBinary => true
   | PZapAny | PErrorfW | PCast => false
   end.
@@ -638,21 +640,35 @@ Inductive uctx :=
 | UExpMapVal                         (* hdr: {a: ${env:X}} into map[string]String *)
 | UExpSliceElem                      (* list: ["${env:X}"] into []String *)
 | UExpInline                         (* inl: pre-${env:X}-post into a String field *)
-| UExpPtr (c : ycls).                (* ptr: ${env:X} into a *String field *)
+| UExpPtr (c : ycls)                 (* ptr: ${env:X} into a *String field *)
+| UViaSub (u : uctx).                (* the same, but the component's section is first taken with Conf.Sub (as the
+                                        collector does for every component) and THAT Conf is unmarshalled *)
 
 Inductive ures := Stored (s : string) | NilPtr | DecodeError.
 
-(* unmarshalerEmbeddedStructsHookFunc: the squashed struct is unmarshalled, then MARSHALLED back
-   into a Conf (which redacts) and the result overwrites the input map before the final decode.
+(* unmarshalerEmbeddedStructsHookFunc: the squashed struct is unmarshalled, then marshalled back into a
+   Conf by marshalForDecoding — which keeps values whose text form cannot be unmarshalled again, i.e.
+   does not redact (repair 02a3505c0) — and the result overwrites the input map before the final decode.
    useExpandValue: an expanded value keeps its original text only for a target of KIND string; a
    pointer target gets the YAML-parsed value (nil for null, a decode error for a non-string). *)
-Definition unmarshal (M : methods) (u : uctx) (t : string) : ures :=
+Fixpoint unmarshal (M : methods) (u : uctx) (t : string) : ures :=
   match u with
-  | UConfSquashUnmarshaler => Stored (m_MarshalText M t)
+  | UViaSub u' => unmarshal M u' t      (* Sub keeps the expanded values (original text included) as they are *)
   | UExpInline => Stored ("pre-" ++ t ++ "-post")
   | UExpPtr YNull => NilPtr
   | UExpPtr YOther => DecodeError
   | _ => Stored t
+  end.
+
+Fixpoint is_inline (u : uctx) : bool :=
+  match u with UExpInline => true | UViaSub u' => is_inline u' | _ => false end.
+
+(* the decoding contexts in which the text must be (and is) stored as it is *)
+Fixpoint plain_ctx (u : uctx) : bool :=
+  match u with
+  | UViaSub u' => plain_ctx u'
+  | UExpInline | UExpPtr YNull | UExpPtr YOther => false
+  | _ => true
   end.
 
 (* ------------------------------------------------------------------------------------------ *)
